@@ -15,7 +15,7 @@
    PropertyDescriptors and the _mesa_properties set are three separate tables, updated in the
    order the source updates them.  Definitions only. *)
 From Coq Require Import ZArith List Bool.
-From Mesa Require Import Common.ListX.
+From Mesa Require Import Common.ListX Generated.Tables.
 Import ListNotations.
 Open Scope Z_scope.
 
@@ -296,23 +296,37 @@ Fixpoint apply_exts (st : state) (m : bmask) (exts : list (Z * Z)) : bmask + Z :
   end.
 
 Definition nz (v : Z) : bool := negb (v =? 0).
-Definition select_mask (st : state) (conds : list (Z * cond)) (exts : list (Z * Z))
-           (masks : list (list bool)) (only_empty : bool) : bmask + Z :=
-  let m0 := map (fun c => (c, true)) (all_coords (s_dims st)) in
-  let m1 := apply_masks (s_dims st) m0 masks in
-  match (if only_empty then
-           match empty_view st with
-           | Some e => Some (mask_and m1 (fun c => nz (aget0 e c)))
-           | None => None
-           end
-         else Some m1) with
-  | None => inr E_KEY
-  | Some m2 =>
-      match apply_conds st m2 conds with
-      | None => inr E_KEY
-      | Some m3 => apply_exts st m3 exts
+(* the filter stages of select_cells, run in the order the SOURCE has them (Generated.Tables,
+   re-extracted on every run by harness/tables/proplayer.py) *)
+Definition run_stage (st : state) (conds : list (Z * cond)) (exts : list (Z * Z))
+           (masks : list (list bool)) (only_empty : bool) (sg : sel_stage) (m : bmask) : bmask + Z :=
+  match sg with
+  | SMasks => inl (apply_masks (s_dims st) m masks)
+  | SEmpty =>
+      if only_empty then
+        match empty_view st with
+        | Some e => inl (mask_and m (fun c => nz (aget0 e c)))
+        | None => inr E_KEY
+        end
+      else inl m
+  | SConds => match apply_conds st m conds with Some m' => inl m' | None => inr E_KEY end
+  | SExts => apply_exts st m exts
+  end.
+Fixpoint run_stages (st : state) (conds : list (Z * cond)) (exts : list (Z * Z))
+         (masks : list (list bool)) (only_empty : bool) (sgs : list sel_stage) (m : bmask) : bmask + Z :=
+  match sgs with
+  | [] => inl m
+  | sg :: t =>
+      match run_stage st conds exts masks only_empty sg m with
+      | inl m' => run_stages st conds exts masks only_empty t m'
+      | inr k => inr k
       end
   end.
+Definition select_mask (st : state) (conds : list (Z * cond)) (exts : list (Z * Z))
+           (masks : list (list bool)) (only_empty : bool) : bmask + Z :=
+  run_stages st conds exts masks only_empty
+    (if s_discrete st then gen_select_order_discrete else gen_select_order_legacy)
+    (map (fun c => (c, true)) (all_coords (s_dims st))).
 Definition mask_list (m : bmask) : list coord :=
   flat_map (fun kb : coord * bool => if snd kb then [fst kb] else []) m.
 Definition select_obs (m : bmask) (aslist : bool) : list Z :=
